@@ -2,6 +2,7 @@ import Driver.Core
 import Mltwist.Model.Exprtools
 import Mltwist.Model.Const
 import Mltwist.Spec.Checks
+import Mltwist.Spec.Subterms
 import Mltwist.Spec.Gadgets
 /-
 Handlers for the expression layer: C09 C10 C11 C12 C13 C27 C28.
@@ -28,7 +29,7 @@ def splitBar (toks : List String) : List String × List String :=
   (toks.takeWhile (· ≠ "|"), (toks.dropWhile (· ≠ "|")).drop 1)
 
 def replRule (w : Nat) (e : Expr) : Option Expr :=
-  if e.width = w then some (.regLoad "repl" w) else none
+  if e.width = w then some (.regLoad s!"repl{e.size}" w) else none
 
 /-- all sub-expressions in pre-order (independent oracle for `find`) -/
 def subterms : Expr → List Expr
@@ -122,7 +123,10 @@ def hRepl : Handler := fun args res => do
   let istr := " ".intercalate res
   let matches_ := (subterms e).any fun s => s.kind == kind && s.width == w
   let tags := [sizeTag e, if matches_ then "match" else "nomatch"]
-  let orc := if !matches_ && istr != fmtExpr e then some "changed although nothing matches" else none
+  let spec := e.mapBottomUp (fun s => if s.kind == kind then (replRule w s).getD s else s)
+  let orc := if !matches_ && istr != fmtExpr e then some "changed although nothing matches"
+    else if istr != fmtExpr spec then some "not the bottom-up substitution of exactly the matching sub-expressions"
+    else none
   return { corr := corrOf (fmtExpr model) istr, oracle := orc, tags }
 
 def hExprs : Handler := fun args res => do
@@ -134,10 +138,22 @@ def hExprsMany : Handler := fun args res => do
   return { corr := corrOf (fmtExprs (efs.flatMap Effect.exprs)) (" ".intercalate res),
            oracleNA := true, tags := [] }
 
+/-- kind, key and width of an effect -/
+def effectShape : Effect → String × String × Nat
+  | .memStore _ k _ w => ("ms", k, w)
+  | .regStore _ k w => ("rs", k, w)
+
 def hEfApply : Handler := fun args res => do
   let (w, ef) ← runP (do let w ← pNat; let ef ← pEffect; pure (w, ef)) args
-  return { corr := corrOf (fmtEffect (ef.apply (setWidth · w))) (" ".intercalate res),
-           oracleNA := true, tags := [] }
+  let model := ef.apply (setWidth · w)
+  if res == ["PANIC"] then
+    return { corr := corrOf (fmtEffect model) "PANIC", oracle := some "panic", tags := [] }
+  let i ← runP pEffect res
+  let orc := firstFail [
+    (effectShape i == effectShape ef, "the transformed effect changed kind, key or width"),
+    (i.exprs.map Expr.width == ef.exprs.map (fun _ => w), "an operand was not transformed")]
+  return { corr := corrOf (fmtEffect model) (fmtEffect i), oracle := orc,
+           tags := [if ef.exprs.any (fun e => e.width != ef.width) then "mixedwidth" else "samewidth"] }
 
 def hEfsApply : Handler := fun args res => do
   let (w, efs) ← runP (do let w ← pNat; let efs ← pList pEffect; pure (w, efs)) args
